@@ -83,6 +83,24 @@ def qs_worker(prop, seed, widx, nworkers, plan, scratch, allow_restart=False, ru
             res3 = qsrun.run_script(scratch, res["steps"], res["choices"], run_cls=run_cls)
             if res3["digest"] != res["digest"]:
                 raise HarnessError(f"replay of run {i} diverges: digest {res['digest']} vs {res3['digest']}")
+        # "with every choice among eligible blocked workers": when the run contained real
+        # choices (>= 2 alternatives), re-run the same script under every other choice vector
+        alts = res["choice_alternatives"]
+        if res["violation"] is None and any(a >= 2 for a in alts) and plan.get("enumerate_choices", True):
+            import itertools
+            space = list(itertools.product(*[range(a) for a in alts[:6]]))
+            if 1 < len(space) <= plan.get("max_choice_vectors", 24):
+                for vec in space:
+                    vec = list(vec)
+                    if vec == res["choices"][:len(vec)]:
+                        continue
+                    alt = qsrun.run_script(scratch, res["steps"], vec, run_cls=run_cls)
+                    st["choice_vector_reruns"] = st.get("choice_vector_reruns", 0) + 1
+                    if alt["violation"] is not None:
+                        res = alt
+                        st["violations_found_by_choice_enumeration"] = st.get("violations_found_by_choice_enumeration", 0) + 1
+                        break
+                st["histories_with_all_choice_vectors"] = st.get("histories_with_all_choice_vectors", 0) + 1
         v = res["violation"]
         if v is not None:
             owner = CLASS2PROP.get(v["class"], prop)
@@ -134,6 +152,8 @@ def qs_evidence(prop, level, stats, samples, plan, tier, seed, wall, nviol, know
         "determinism_rechecks": stats.get("determinism_rechecks", 0),
         "foreign_violations_ignored": stats.get("foreign", {}),
         "max_alternatives_in_choice": stats.get("max_alternatives", 0),
+        "histories_rerun_under_every_choice_vector": stats.get("histories_with_all_choice_vectors", 0),
+        "choice_vector_reruns": stats.get("choice_vector_reruns", 0),
         "max_steps": stats.get("max_steps", 0),
         "hub_errors": stats.get("hub_errors", {}),
         "components": COMPONENTS,
